@@ -35,6 +35,22 @@ Theorem C18_bytes_determine_token : forall a b,
 Proof. exact token_bytes_inj. Qed.
 Print Assumptions C18_bytes_determine_token.
 
+(* a stored token that verified still verifies after it has been read back (the reader
+   returns caveats / facts in canonical map order; the signing payload is unchanged), for the
+   byte-exact signing payload of DagJson.v and any signature scheme *)
+Theorem C18_stored_token_verifies :
+  forall (valid : N -> bstr -> bstr -> bool) (alg_of did_of : N -> bstr) t k,
+  verify valid alg_of did_of t k = true -> verify valid alg_of did_of (canon_token t) k = true.
+Proof. exact verify_after_transport. Qed.
+Print Assumptions C18_stored_token_verifies.
+
+(* re-issuing from the same key and fields reproduces the same signing payload, signature and
+   block bytes (hence CID): issuance is a function of key and fields alone — no clock, no
+   randomness, no map-order dependence (the payload of a re-ordered caveat map is the same) *)
+Theorem C18_reissue_same_payload : forall alg t, sign_payload alg (canon_token t) = sign_payload alg t.
+Proof. exact sign_payload_canon_token. Qed.
+Print Assumptions C18_reissue_same_payload.
+
 (* stored agent messages and receipts read back *)
 Theorem C18_stored_message_readable : forall m,
   wf_ipld (message_ipld m) = true -> in_budget (message_ipld m) = true ->
@@ -57,7 +73,7 @@ Theorem C18_token_layout : forall t, conforms_v spec_token (token_ipld t) = true
 Proof. exact token_conforms. Qed.
 Theorem C18_capability_layout : forall c, conforms_v spec_capability (cap_ipld c) = true.
 Proof. exact capability_conforms. Qed.
-Theorem C18_payload_layout : forall ds cs t, conforms_v spec_payload (payload_ipld ds cs t true) = true.
+Theorem C18_payload_layout : forall t, conforms_v spec_payload (payload_ipld t true) = true.
 Proof. exact payload_conforms. Qed.
 Theorem C18_header_layout : forall alg ver, conforms_v spec_header (header_ipld alg ver) = true.
 Proof. exact header_conforms. Qed.
